@@ -2,6 +2,7 @@ import PqlModel.Props.C10
 import PqlModel.Props.C08Full
 import PqlModel.Props.C10Linecol
 import PqlModel.Props.C10Failed
+import PqlModel.Props.C10Extent
 #print axioms Pql.C10.C10_union_lists_every_field
 #print axioms Pql.C10.C10_model_matches_span_table
 #print axioms Pql.C10.C10_unions_contains
@@ -16,3 +17,18 @@ import PqlModel.Props.C10Failed
 #print axioms Pql.C10.C10_error_spans_valid
 #print axioms Pql.C10.C10_partial_tree_spans_origin
 #print axioms Pql.C10.C10_partial_tree_spans_inside
+#print axioms Pql.C10.C10_span_extent_expr
+#print axioms Pql.C10.C10_span_extent_op
+#print axioms Pql.C10.C10_span_extent_tabular
+#print axioms Pql.C10.C10_span_extent_stmt
+#print axioms Pql.C10.C10_parse_tidy
+#print axioms Pql.C10.C10_span_extent_partial
+#print axioms Pql.C10.C10_span_extent
+#print axioms Pql.C10.C10_span_extent_zip
+#print axioms Pql.C10.C10_span_contains_parts
+#print axioms Pql.C10.C10_span_precedes_sibling
+#print axioms Pql.C10.C10_span_precedes_sibling_binary
+#print axioms Pql.C10.C10_span_list_ordered
+#print axioms Pql.C10.C10_span_extent_deep
+#print axioms Pql.C10.C10_span_tabular_ops
+#print axioms Pql.C10.C10_span_extent_untidy_false
